@@ -20,6 +20,11 @@ def run(ctx: Ctx) -> None:
     with ctx.only("T67.inverse-velocity"), ctx.parallel():  # the inverse clause at the SVF transforms' displacement buffers
         t67_transforms.run_inverse(ctx)
     ctx.floor("T67.inverse-velocity", 30)
+    # the object-oriented route FlowFields.exp / FlowField.exp: vectors converted to cube units for expv and back to the caller's axes (shared with C10)
+    from ..tables import t10_flow
+    with ctx.only("T10x.exp"):
+        t10_flow.run_flow(ctx)
+    ctx.floor("T10x.exp", 8)
     e4(ctx, ["deepali.modules.flow"], only=lambda fi: fi.qualname.startswith("ExpFlow"))
 
 
@@ -45,6 +50,7 @@ def mutants(prog):
         ("expv: sampling grid in default precision", F, "expv", "grid.coords(dtype=flow.dtype, device=device)", "grid.coords(device=device)", "T11x.dtype"),
         ("svf inverse: forward exponential", "deepali.spatial.nonrigid", "StationaryVelocityFieldTransform.inverse", "u = inv.exp(v)", "u = self.exp(v)", "T67.inverse-velocity"),
         ("tensor(): de-duplicated buffer lookup", "deepali.spatial.base", "NonRigidTransform.tensor", "if u is None or 'u' not in self._buffers:", "if u is None or 'u' not in {name for name, _ in self.named_buffers()}:", "T11x.svf-steps"),
+        ("FlowFields.exp: result left in cube units", "deepali.data.flow", "FlowFields.exp", "flow = flow.axes(axes)", "flow = self._make_instance(flow.tensor(), flow._grid, axes)", "T10x.exp"),
     ]
     for name, mod, fn, old, new, expect in specs:
         ov = source_sub(prog, mod, fn, old, new)
